@@ -19,11 +19,14 @@ type Call struct {
 	Util *UtilCase `json:"helpers,omitempty"`
 }
 
-// ConcCase : several goroutines, each repeating its own list of calls; no argument is shared
-// between goroutines (every call builds its slices and maps itself).
+// ConcCase : several goroutines, each repeating its own list of calls. Maps (which the dividers
+// write to) are never shared. Priority slices are private copies too, unless SharedPrios is set:
+// then every goroutine runs the call list of the first one and they all hand the very same
+// priority slices to the library, which only has to read them.
 type ConcCase struct {
-	Workers [][]Call `json:"workers"`
-	Rounds  int      `json:"rounds"`
+	Workers     [][]Call `json:"workers"`
+	Rounds      int      `json:"rounds"`
+	SharedPrios bool     `json:"goroutines_share_the_priority_slices"`
 }
 
 func fmtMap(m map[uint]uint) string {
@@ -39,8 +42,14 @@ func fmtMap(m map[uint]uint) string {
 	return s
 }
 
-// result runs the call and renders everything it returned.
-func (c Call) result() string {
+// result runs the call and renders everything it returned. own: the priority slice is copied first.
+func (c Call) result(own bool) string {
+	prios := func(p []uint) []uint {
+		if own {
+			return append([]uint(nil), p...)
+		}
+		return p
+	}
 	switch {
 	case c.Rate != nil:
 		rt := limit.Rate{Interval: time.Duration(c.Rate.I), Quantity: c.Rate.Q}
@@ -51,13 +60,13 @@ func (c Call) result() string {
 	case c.Div != nil:
 		d2, d1 := dividers(c.Div.Which)
 		m2 := cloneMap(c.Div.Pre)
-		d2(append([]uint(nil), c.Div.Prios...), c.Div.Dividend, m2)
-		m1 := d1(append([]uint(nil), c.Div.Prios...), c.Div.Dividend, cloneMap(c.Div.Pre))
+		d2(prios(c.Div.Prios), c.Div.Dividend, m2)
+		m1 := d1(prios(c.Div.Prios), c.Div.Dividend, cloneMap(c.Div.Pre))
 		return fmtMap(m2) + "| " + fmtMap(m1)
 	default:
 		u := c.Util
 		d2, d1 := dividers(u.Which)
-		p := append([]uint(nil), u.Prios...)
+		p := prios(u.Prios)
 		return fmt.Sprint(
 			utils.IsNonFatalConfig(p, d2, u.Q), v1.IsNonFatalConfig(p, d1, u.Q),
 			utils.IsSuitableConfig(p, d2, u.Q, u.Limit1), v1.IsSuitableConfig(p, d1, u.Q, u.Limit1),
@@ -72,10 +81,15 @@ func (c Call) result() string {
 // CheckConc : the calls give the same results from many goroutines at once as they give one
 // after another (the race detector, when the binary is built with it, is the second oracle).
 func CheckConc(c ConcCase) error {
+	if c.SharedPrios {
+		for w := range c.Workers {
+			c.Workers[w] = c.Workers[0] // the same Call values: the same slice headers
+		}
+	}
 	want := make([][]string, len(c.Workers))
 	for w, calls := range c.Workers {
 		for _, cl := range calls {
-			want[w] = append(want[w], cl.result())
+			want[w] = append(want[w], cl.result(true))
 		}
 	}
 	var (
@@ -91,7 +105,7 @@ func CheckConc(c ConcCase) error {
 			<-start
 			for r := 0; r < c.Rounds; r++ {
 				for i, cl := range calls {
-					if got := cl.result(); got != want[w][i] {
+					if got := cl.result(!c.SharedPrios); got != want[w][i] {
 						mu.Lock()
 						if first == nil {
 							first = fmt.Errorf("goroutine %d, round %d, call %d: result %q while other goroutines were calling the library, %q when called alone", w, r, i, got, want[w][i])
@@ -112,7 +126,7 @@ func CheckConc(c ConcCase) error {
 func GenConc(thorough bool) *rapid.Generator[ConcCase] {
 	return rapid.Custom(func(t *rapid.T) ConcCase {
 		rate, div, util := GenRate(thorough), GenDiv(thorough), GenUtil(false)
-		c := ConcCase{Rounds: rapid.SampledFrom([]int{20, 100, 400}).Draw(t, "rounds")}
+		c := ConcCase{Rounds: rapid.SampledFrom([]int{20, 100, 400}).Draw(t, "rounds"), SharedPrios: rapid.IntRange(0, 2).Draw(t, "sharedprios") == 0}
 		nw := rapid.IntRange(2, 8).Draw(t, "workers")
 		kind := rapid.IntRange(0, 3).Draw(t, "kind") // 0..2: every worker uses one family, 3: mixed
 		for w := 0; w < nw; w++ {
